@@ -679,6 +679,33 @@ class PrimaryOrSupplementaryVD:
             return True
         return False
 
+    def check_remove_from_ptr_size(self, ptr_sizes):
+        # type: (List[int]) -> None
+        """
+        Check that the space for a number of path table records can be removed
+        from the volume descriptor, one after the other.  Nothing is changed;
+        if one of the removals would be refused, the exception is raised.
+
+        Parameters:
+         ptr_sizes - The lengths of the Path Table Records that are going to be
+                     removed from this Volume Descriptor, in order.
+        Returns:
+         Nothing.
+        """
+        if not self._initialized:
+            raise pycdlibexception.PyCdlibInternalError('This Volume Descriptor is not initialized')
+
+        path_tbl_size = self.path_tbl_size
+        num_extents = self.path_table_num_extents
+        for ptr_size in ptr_sizes:
+            path_tbl_size -= ptr_size
+            new_extents = utils.ceiling_div(path_tbl_size, 4096) * 2
+            if new_extents > num_extents:
+                # This should never happen.
+                raise pycdlibexception.PyCdlibInvalidInput('Extent number should never grow when removing PTR')
+            if new_extents < num_extents:
+                num_extents -= 2
+
     def remove_from_ptr_size(self, ptr_size):
         # type: (int) -> bool
         """
@@ -692,14 +719,14 @@ class PrimaryOrSupplementaryVD:
         if not self._initialized:
             raise pycdlibexception.PyCdlibInternalError('This Volume Descriptor is not initialized')
 
+        # Make sure the removal is not refused before changing anything.
+        self.check_remove_from_ptr_size([ptr_size])
+
         # Next remove from the Path Table Record size.
         self.path_tbl_size -= ptr_size
         new_extents = utils.ceiling_div(self.path_tbl_size, 4096) * 2
 
         need_remove_extents = False
-        if new_extents > self.path_table_num_extents:
-            # This should never happen.
-            raise pycdlibexception.PyCdlibInvalidInput('Extent number should never grow when removing PTR')
         if new_extents < self.path_table_num_extents:
             self.path_table_num_extents -= 2
             need_remove_extents = True
